@@ -763,5 +763,72 @@ def validate (t : Tbl) (v6 : Bool) (asn : Nat) (q : Nat) (n : Nat) : String :=
   if cov.any (fun r => r.asn != 0 && r.asn == asn && decide (n ≤ r.maxLen)) then "VALID"
   else if cov.isEmpty then "NOTFOUND" else "INVALID"
 
+/-! ## `rtr_stop` on a running thread
+
+  `stop` above is `rtr_stop` once the state-machine thread has ended.  On a running thread the call
+  has two parts with the thread in between: the stop request (`rtr_change_socket_state(SHUTDOWN)`,
+  `pthread_cancel`), then — after `pthread_join`, i.e. after whatever the thread still did — the
+  close, the reset of the session bookkeeping and the purge. -/
+
+/-- `rtr_stop`, up to `pthread_join`: the stop request -/
+def stopBegin (st : St) : St := st.change .shutdown
+
+/-- `rtr_stop`, after `pthread_join` -/
+def stopFinish (st : St) : St :=
+  let st := trClose st
+  { st with t := st.t.purge, n := { st.n with threaded := false },
+            ss := { st.ss with reqSession := true, serial := 0, lastUpdate := 0 },
+            c := { st.c with state := .closed } }
+
+/-! ## `tr_send_all` on a transport whose write calls take time
+
+  The send script above answers every write at once.  The loop of `tr_send_all` reads the clock
+  before every call and hands the transport the time left until its deadline
+  (`end_time - cur_time`, negative once the deadline has passed); it ends only when everything is
+  written or a call fails — it never gives up by itself, so a return value ≥ 0 is the full length.
+  `SendStep.dt` is the time that passes inside one write call. -/
+
+structure SendStep where
+  dt : Nat
+  ev : SendEv
+deriving Repr
+
+/-- one `tr_send(bytes, timeout)` call at clock `now`: return code, rest of the script, clock at
+    return, trace line.  An exhausted script accepts everything at once. -/
+def trSendT (q : List SendStep) (now : Int) (bytes : List Nat) (timeout : Int) : Int × List SendStep × Int × String :=
+  let len := bytes.length
+  match q with
+  | [] => (len, [], now, s!"V {len} {timeout} -> {len} {hex bytes}")
+  | s :: q =>
+    match s.ev with
+    | .err => (-1, q, now + s.dt, s!"V {len} {timeout} -> -1")
+    | .block => (-2, q, now + s.dt, s!"V {len} {timeout} -> -2")
+    | .part k =>
+      let m := if min k len = 0 then 1 else min k len
+      (m, q, now + s.dt, s!"V {len} {timeout} -> {m} {hex (bytes.take m)}")
+    | .all => (len, q, now + s.dt, s!"V {len} {timeout} -> {len} {hex bytes}")
+
+/-- result of `tr_send_all`: return value, clock, the bytes the transport accepted (ghost), trace -/
+structure SendAllRes where
+  rc : Int
+  now : Int
+  handed : List Nat
+  lines : List String
+
+/-- the loop of `tr_send_all(bytes, timeout)` with `end_time = endTime` -/
+def sendAllTLoop (endTime : Int) : Nat → List SendStep → Int → List Nat → Nat → List Nat → List String → SendAllRes
+  | 0, _, now, _, total, handed, lines => ⟨total, now, handed, lines⟩
+  | fuel + 1, q, now, rest, total, handed, lines =>
+    if rest.isEmpty then ⟨total, now, handed, lines⟩
+    else
+      match trSendT q now rest (endTime - now) with
+      | (rc, q', now', line) =>
+        if rc < 0 then ⟨rc, now', handed, lines ++ [line]⟩
+        else sendAllTLoop endTime fuel q' now' (rest.drop rc.toNat) (total + rc.toNat)
+               (handed ++ rest.take rc.toNat) (lines ++ [line])
+
+def sendAllT (q : List SendStep) (now : Int) (bytes : List Nat) (timeout : Int) : SendAllRes :=
+  sendAllTLoop (now + timeout) (bytes.length + 1) q now bytes 0 [] []
+
 end P
 end Rtr
